@@ -264,6 +264,7 @@ def run(ctx) -> None:
     rep.add("C08.R6", f"{cb.qname}:keys-are-wrapper-inputs", ok, cb.loc(), why)
     check_inner_bound_merge_complete(ctx, "C08.R6")
     check_spec_recomputation_inputs(ctx, "C08.R9")
+    check_scope_recomputation_inputs(ctx, "C08.R9")
     check_cycle_decomposition_agrees(ctx, "C08.R10")
     check_single_pass_accumulators(ctx, "C08.R12")
     # ---- R11 --------------------------------------------------------------------
@@ -415,6 +416,37 @@ def check_spec_recomputation_inputs(ctx, rule: str) -> None:
                     diffs.append(f"{k}: '{src(b[k])}' (Graph.inputs passes '.{attr_of(ref[k])}')")
         ok = not diffs
         rep.add(rule, f"{f.qname}:compute_input_spec-arguments", ok, f"{f.module.rel}:{c.lineno}", "recomputation receives the graph's own nodes, nx graph, direct bindings and entry points" if ok else f"the specification is recomputed from different state than the cached one — {'; '.join(diffs)}: e.g. the merged inputs.bound contains bindings of nested graphs that are outside a narrower selection, so an omitted required input is accepted")
+
+
+def check_scope_recomputation_inputs(ctx, rule: str) -> None:
+    """Every computation of the active scope receives both configuration dimensions on every call: the entry points
+    (the graph's own, or the ones handed to compute_input_spec) and the selection.  A scope computed without the
+    entry points re-activates the nodes upstream of them: their outputs — the true required inputs — then look
+    edge-produced and their own inputs look required."""
+    db, rep = ctx.db, ctx.rep
+    cas = db.func("graph.input_spec._compute_active_scope")
+    n = 0
+    for f in db.all_funcs():
+        for c in db.calls_in(f):
+            if cas.name not in call_names(db, c, f) or f is cas:
+                continue
+            n += 1
+            b = bind_args(c, cas) or {}
+            miss = []
+            ep = b.get("entrypoints")
+            if ep is None or not ("entrypoints" in src(ep)):
+                miss.append("entry points")
+            from .common import enclosing_facts, is_none_fact
+
+            none_here = {src(x) for a_, pol in enclosing_facts(c) for x in [is_none_fact(a_, pol)] if x is not None}
+            if ep is None and any("entrypoints" in t_ for t_ in none_here):
+                miss = []  # no entry points are configured on this path
+            sel_names = [p_ for p_ in f.param_names if "select" in p_]
+            if b.get("selected") is None and not (set(sel_names) & none_here):
+                miss.append("selection")
+            rep.add(rule, f"{f.qname}:active-scope-arguments#{n}", not miss, f"{f.module.rel}:{c.lineno}", "the scope is computed from the entry points and the selection" if not miss else f"this computation of the active scope is not given the {' and the '.join(miss)}: with with_entrypoint(...) plus a run-time select the nodes upstream of the entry points count as active again — the reported required inputs are rejected ('cannot mix compute and inject') and omitting one is accepted")
+    if n < 2:
+        raise AnalysisError(f"only {n} active-scope computations found")
 
 
 def check_inner_bound_merge_complete(ctx, rule: str) -> None:
